@@ -15,6 +15,10 @@ import (
 //vp:all stub net.Dial = vpDial2
 //vp:all stub (*net.Dialer).Dial = vpDialerDial
 //vp:all stub (*net.Dialer).DialContext = vpDialerDialContext
+//vp:all stub net.LookupHost = vpLookupHost
+//vp:all stub net.LookupIP = vpLookupIP
+//vp:all stub (*net.Resolver).LookupHost = vpResolverLookupHost
+//vp:all stub (*net.Resolver).LookupIPAddr = vpResolverLookupIPAddr
 
 // ghost state of the environment stubs (reset by every harness)
 var (
@@ -39,6 +43,7 @@ func vpResetC01() {
 	vpBackendChunk = nil
 	vpBackendHangsUp = false
 	vpBackendStopsReading = false
+	vpLookups = 0
 	vpBackendReads = nil
 	vpStepTunnel, vpSeenTarget, vpSeenAddr = nil, "", ""
 	vpDialLog = nil
@@ -67,6 +72,43 @@ func vpDial(network, address string, timeout time.Duration) (net.Conn, error) {
 	}
 	vpDialConns = append(vpDialConns, c)
 	return c, nil
+}
+
+// Name resolution (for code that resolves the host itself): a name has one or two addresses, or does not
+// resolve; an address literal is its own single address.
+var vpLookups int
+
+func vpLookupHost(name string) ([]string, error) {
+	vpMu.Lock()
+	vpLookups++
+	k := strconv.Itoa(vpLookups)
+	vpMu.Unlock()
+	switch vpIntRange("addresses-of-the-name-"+k, 0, 2) {
+	case 0:
+		return nil, errors.New("vp: lookup: no such host")
+	case 1:
+		return []string{"192.0.2.1"}, nil
+	}
+	return []string{"192.0.2.1", "192.0.2.2"}, nil
+}
+func vpLookupIP(name string) ([]net.IP, error) {
+	hs, err := vpLookupHost(name)
+	var out []net.IP
+	for _, h := range hs {
+		out = append(out, net.ParseIP(h))
+	}
+	return out, err
+}
+func vpResolverLookupHost(r *net.Resolver, ctx context.Context, name string) ([]string, error) {
+	return vpLookupHost(name)
+}
+func vpResolverLookupIPAddr(r *net.Resolver, ctx context.Context, name string) ([]net.IPAddr, error) {
+	hs, err := vpLookupHost(name)
+	var out []net.IPAddr
+	for _, h := range hs {
+		out = append(out, net.IPAddr{IP: net.ParseIP(h)})
+	}
+	return out, err
 }
 
 // equivalent ways of opening the backend connection share the same environment model
